@@ -23,3 +23,22 @@ class LineQueue(QueueMonitor):
     def features(self):
         return {'tie_groups': self.tie_groups, 'nested_insertions': self.nested_insertions,
                 'shifted_resumes': self.shifted_resumes}
+
+    # run(d) window on whole lines: every simulate(d) ends with the clock at exactly t0 + d, every live event
+    # due by then executed, none due later executed
+    def run_begin(self, env, t0, d):
+        self._run = (t0, d)
+
+    def run_end(self, env, t0, d):
+        if self.dead or self.ctx.prop != 'C01':
+            return
+        end = t0 + d
+        if env.now != end:
+            self.fail('run_window', f'simulate({d!r}) from {t0!r} ended with the clock at {env.now!r}, expected {end!r}')
+            return
+        left = [s.brief() for s in self.pending.values() if s.time <= end and not s.cancelled]
+        if left:
+            self.fail('run_window', f'after simulate({d!r}) from {t0!r}: live events due by {end!r} not executed: '
+                      f'{left[:3]}')
+            return
+        self.count('run_windows_checked')
